@@ -130,7 +130,7 @@ def write_replay(pid, seed, fail, scn, minimised_from=None):
     os.makedirs(os.path.join(OUT, "replays"), exist_ok=True)
     body = {"property": pid, "oracle": fail["oracle"], "signature": fail["sig"], "seed": seed,
             "scenario": scn, "detail": fail.get("detail"), "repo_rev": sut.repo_rev(),
-            "scenario_digest": hashlib.sha256(canon(scn).encode()).hexdigest()[:16]}
+            "scenario_digest": hashlib.sha256((canon(scn) + fail["oracle"]).encode()).hexdigest()[:16]}
     if minimised_from is not None:
         body["minimised_from_digest"] = hashlib.sha256(canon(minimised_from).encode()).hexdigest()[:16]
     name = f"{pid}-{body['scenario_digest']}.json"
